@@ -81,7 +81,8 @@ func ruleOneEntry(c *Ctx, rule string) {
 		return
 	}
 	var sites []string
-	for fn := range c.A.Reach {
+	// foreground only: a background revalidation may re-read the same entry for its private copy
+	for fn := range c.A.ReachFg {
 		instrsOf(fn, func(in ssa.Instruction) {
 			if c.An.CallsRole(in, "readEntry") {
 				sites = append(sites, c.P.ShortName(fn)+"@"+c.P.InstrPos(in))
@@ -89,10 +90,10 @@ func ruleOneEntry(c *Ctx, rule string) {
 		})
 	}
 	if len(sites) != 1 {
-		c.Fail(rule, "one-entry-read", "exactly one stored entry is read per exchange", "entry read sites: "+joinStrs(sites), sites...)
+		c.Fail(rule, "one-entry-read", "exactly one stored entry is read on the foreground path of an exchange", "entry read sites: "+joinStrs(sites), sites...)
 		return
 	}
-	c.Pass(rule, "one-entry-read", "exactly one stored entry is read per exchange", sites...)
+	c.Pass(rule, "one-entry-read", "exactly one stored entry is read on the foreground path of an exchange", sites...)
 }
 
 func joinStrs(ss []string) string {
